@@ -27,6 +27,7 @@ import (
 	"path/filepath"
 	"sort"
 	"strings"
+	"sync"
 
 	"github.com/open2b/scriggo"
 	"github.com/yuin/goldmark"
@@ -58,9 +59,11 @@ type caseData struct {
 	// NoPosLines are the reference lines of the panics whose position is not judged
 	// (open finding: nil pointer dereference).
 	NoPosLines []int `json:"no_pos_lines,omitempty"`
-	// WantOut, if CheckOut is set, is the exact output of a template run.
-	WantOut  string `json:"want_out,omitempty"`
-	CheckOut bool   `json:"check_out,omitempty"`
+	// CheckOut: the output of the template run must end with OutSuffix and contain
+	// none of OutForbid (text that follows the Stop/Fatal/panic point).
+	CheckOut  bool     `json:"check_out,omitempty"`
+	OutSuffix string   `json:"out_suffix,omitempty"`
+	OutForbid []string `json:"out_forbid,omitempty"`
 }
 
 const (
@@ -81,7 +84,7 @@ func (prop) Drive(d *core.Driver) error {
 	if goBin == "" {
 		return fmt.Errorf("VGO is not set (run through ./check)")
 	}
-	nProg := d.N(360, 4000)
+	nProg := d.N(300, 4000)
 	r := d.Rand("nests")
 	opts := fp.NestOpts{NativeEscape: true, NoDeferFuncVar: d.InScope(scopeDeferFuncVar)}
 	skipDerefPos := d.InScope(scopeDerefPos)
@@ -98,10 +101,25 @@ func (prop) Drive(d *core.Driver) error {
 	if err != nil {
 		return err
 	}
+	// run the reference programs (processes of the gc binary, not scriggo) in parallel
+	exps := make([]gcpanic.Expected, len(nests))
+	errs := make([]error, len(nests))
+	var wg sync.WaitGroup
+	sem := make(chan struct{}, 8)
+	for i := range nests {
+		wg.Add(1)
+		sem <- struct{}{}
+		go func(i int) {
+			defer wg.Done()
+			exps[i], errs[i] = ref.Run(i)
+			<-sem
+		}(i)
+	}
+	wg.Wait()
 	var cases []core.Case
 	outcomes := map[string]int{}
 	for i, n := range nests {
-		exp, err := ref.Run(i)
+		exp, err := exps[i], errs[i]
 		if err != nil {
 			return fmt.Errorf("program %d: %v\n%s", i, err, n.Src)
 		}
@@ -129,7 +147,16 @@ func (prop) Drive(d *core.Driver) error {
 			d.T.Sample(map[string]any{"id": cases[i].ID, "src": core.Truncate(cd.Src, 600), "files": cd.Files, "expect": cd.Expect})
 		}
 	}
-	d.Run(cases, core.RunOpts{})
+	results := d.Run(cases, core.RunOpts{})
+	if path := os.Getenv("VERIF_TRIAGE"); path != "" { // development aid: why cases were skipped
+		var b strings.Builder
+		for i, r := range results {
+			if r.Status == core.Skip {
+				fmt.Fprintf(&b, "%s: %s\n", cases[i].ID, core.Truncate(r.Detail, 3000))
+			}
+		}
+		os.WriteFile(path, []byte(b.String()), 0o644)
+	}
 	return nil
 }
 
@@ -140,7 +167,7 @@ func pad(r interface{ Intn(int) int }, max int) (string, int) {
 	n := r.Intn(max + 1)
 	var b strings.Builder
 	for i := 0; i < n; i++ {
-		fmt.Fprintf(&b, "<!-- filler %d -->\n", i)
+		fmt.Fprintf(&b, "{# filler %d #}\n", i)
 	}
 	return b.String(), n
 }
@@ -169,33 +196,30 @@ func scenarios(r interface{ Intn(int) int }, rounds int) []core.Case {
 		// S2: run-time fault in a rendered partial
 		add("render_fault", caseData{
 			Files: map[string]string{
-				"index.html":   p1 + "A{{ render \"parts/p.html\" }}B\n",
-				"parts/p.html": imp + "\n" + p2 + "p\n{% var a = []int{1} %}\n{{ a[pkg.Zero()+4] }}\nq\n",
+				"index.html":   p1 + "AAA{{ render \"parts/p.html\" }}BBB\n",
+				"parts/p.html": imp + "\n" + p2 + "PPP\n{% var a = []int{1} %}\n{{ a[pkg.Zero()+4] }}\nQQQ\n",
 			},
 			Expect:   gcpanic.Expected{Events: []string{}, Outcome: "panic", LinesOK: true, Chain: []gcpanic.Entry{{Text: "runtime error: index out of range [4] with length 1", Line: n2 + 4}}},
 			Paths:    []string{"parts/p.html"},
-			WantOut:  p1 + "A\n" + p2 + "p\n\n",
-			CheckOut: true,
+			CheckOut: true, OutSuffix: "PPP\n\n", OutForbid: []string{"QQQ", "BBB"},
 		})
 		// S3: Stop in a macro of an imported file: output ends at the call
 		add("macro_imported_stop", caseData{
 			Files: map[string]string{
-				"index.html": p1 + "{% import \"lib/m.html\" %}{% import \"pkg\" %}\n{%% defer pkg.Tick(9) %%}A{{ M() }}B\n",
-				"lib/m.html": imp + p2 + "{% macro M %}x{% pkg.Tick(1) %}{% pkg.Stop(2) %}{% pkg.Tick(2) %}y{% end %}\n",
+				"index.html": p1 + "{% import \"lib/m.html\" %}{% import \"pkg\" %}\n{%% defer pkg.Tick(9) %%}AAA{{ M() }}BBB\n",
+				"lib/m.html": imp + p2 + "{% macro M %}xxx{% pkg.Tick(1) %}{% pkg.Stop(2) %}{% pkg.Tick(2) %}yyy{% end %}\n",
 			},
 			Expect:   gcpanic.Expected{Events: []string{"T1", "STOP2"}, Outcome: "stop", Idx: 2},
-			WantOut:  p1 + "\nAx",
-			CheckOut: true,
+			CheckOut: true, OutSuffix: "xxx", OutForbid: []string{"yyy", "BBB"},
 		})
 		// S4: Fatal in a rendered file, with a deferred recover around
 		add("render_fatal", caseData{
 			Files: map[string]string{
-				"index.html": p1 + "{% import \"pkg\" %}{%%\n\tdefer func() {\n\t\tpkg.Got(recover())\n\t}()\n%%}A{{ render \"p.html\" }}B\n",
-				"p.html":     imp + p2 + "p{% pkg.Fatal(1) %}q\n",
+				"index.html": p1 + "{% import \"pkg\" %}{%%\n\tdefer func() {\n\t\tpkg.Got(recover())\n\t}()\n%%}AAA{{ render \"p.html\" }}BBB\n",
+				"p.html":     imp + p2 + "ppp{% pkg.Fatal(1) %}qqq\n",
 			},
 			Expect:   gcpanic.Expected{Events: []string{"FATAL1"}, Outcome: "fatal", Idx: 1},
-			WantOut:  p1 + "Ap",
-			CheckOut: true,
+			CheckOut: true, OutSuffix: "ppp", OutForbid: []string{"qqq", "BBB"},
 		})
 		// S5: a macro of an imported file panics inside a deferred closure while the
 		// template is already panicking: two entries with different paths
@@ -219,31 +243,28 @@ func scenarios(r interface{ Intn(int) int }, rounds int) []core.Case {
 		// S7: extends: the macro of the extending file panics when the layout calls it
 		add("extends_panic", caseData{
 			Files: map[string]string{
-				"index.html":  "{% extends \"layout.html\" %}\n" + p1 + "{% macro Body %}\nb{% panic(12) %}\n{% end %}\n",
+				"index.html":  "{% extends \"layout.html\" %}\n" + p1 + "{% macro Body %}\nbbb{% panic(12) %}\n{% end %}\n",
 				"layout.html": p2 + "<html>{{ Body() }}</html>\n",
 			},
 			Expect:   gcpanic.Expected{Events: []string{}, Outcome: "panic", LinesOK: true, Chain: []gcpanic.Entry{{Text: "12", Line: n1 + 3}}},
 			Paths:    []string{"index.html"},
-			WantOut:  p2 + "<html>\nb",
-			CheckOut: true,
+			CheckOut: true, OutSuffix: "bbb", OutForbid: []string{"</html>"},
 		})
 		// S8: a native calls back a macro that stops
 		add("native_callback_macro_stop", caseData{
 			Files: map[string]string{
-				"index.html": "{% import \"pkg\" %}" + p1 + "{% macro M string %}m{% pkg.Stop(0) %}n{% end %}A{{ pkg.CallStr(M) }}B{% pkg.Tick(5) %}\n",
+				"index.html": "{% import \"pkg\" %}" + p1 + "{% macro M string %}mmm{% pkg.Stop(0) %}nnn{% end %}AAA{{ pkg.CallStr(M) }}BBB{% pkg.Tick(5) %}\n",
 			},
 			Expect:   gcpanic.Expected{Events: []string{"CS<", "STOP0"}, Outcome: "stop", Idx: 0},
-			WantOut:  p1 + "A",
-			CheckOut: true,
+			CheckOut: true, OutSuffix: "AAA", OutForbid: []string{"mmm", "nnn", "BBB"},
 		})
 		// S9: Stop inside a deferred closure that runs while panicking
 		add("stop_while_panicking", caseData{
 			Files: map[string]string{
-				"index.html": "{% import \"pkg\" %}" + p1 + "a{%%\n\tf := func() {\n\t\tdefer pkg.Tick(7)\n\t\tdefer func() {\n\t\t\tpkg.Tick(1)\n\t\t\tpkg.Stop(3)\n\t\t\tpkg.Tick(2)\n\t\t}()\n\t\tpanic(\"x\")\n\t}\n\tf()\n%%}b\n",
+				"index.html": "{% import \"pkg\" %}" + p1 + "aaa{%%\n\tf := func() {\n\t\tdefer pkg.Tick(7)\n\t\tdefer func() {\n\t\t\tpkg.Tick(1)\n\t\t\tpkg.Stop(3)\n\t\t\tpkg.Tick(2)\n\t\t}()\n\t\tpanic(\"x\")\n\t}\n\tf()\n%%}bbb\n",
 			},
 			Expect:   gcpanic.Expected{Events: []string{"T1", "STOP3"}, Outcome: "stop", Idx: 3},
-			WantOut:  p1 + "a",
-			CheckOut: true,
+			CheckOut: true, OutSuffix: "aaa", OutForbid: []string{"bbb"},
 		})
 	}
 	return out
@@ -434,7 +455,11 @@ func (prop) Work(c core.Case) core.Result {
 				hdr.WriteString("\tpanic: ")
 			}
 			hdr.WriteString(w.Text)
-			if w.Recovered {
+			rec := w.Recovered
+			if w.Collapsed && sharedValue(w.Text) {
+				rec = ents[i].Recovered
+			}
+			if rec {
 				hdr.WriteString(" [recovered]")
 			}
 			hdr.WriteString("\n")
@@ -450,8 +475,15 @@ func (prop) Work(c core.Case) core.Result {
 		return fail("event log differs from the reference")
 	}
 	// 3. output
-	if cd.CheckOut && out.String() != cd.WantOut {
-		return fail("output %q, want %q", out.String(), cd.WantOut)
+	if cd.CheckOut {
+		if !strings.HasSuffix(strings.TrimRight(out.String(), " \t\n"), strings.TrimRight(cd.OutSuffix, " \t\n")) {
+			return fail("output %q does not end with %q (bytes written at or after the stop point)", out.String(), cd.OutSuffix)
+		}
+		for _, f := range cd.OutForbid {
+			if strings.Contains(out.String(), f) {
+				return fail("output %q contains %q, which follows the stop point", out.String(), f)
+			}
+		}
 	}
 	return res
 }
